@@ -1,8 +1,8 @@
 #!/bin/sh
-# confirm a seeded change produced by a sub-agent in /tmp/wt7_out/<Cxx>-m<k>/ and store it under /verif/seeded/<Cxx>-m<k>/
+# confirm a seeded change produced by a sub-agent in $SEED_SRC (default /tmp/wt7_out)/<Cxx>-m<k>/ and store it under /verif/seeded/<Cxx>-m<k>/
 # usage: dev/confirm_seed7.sh C01 7
 C="$1"; K="$2"
-SRC=/tmp/wt7_out/$C-m$K
+SRC=${SEED_SRC:-/tmp/wt7_out}/$C-m$K
 DST=/verif/seeded/$C-m$K
 [ -f "$SRC/patch.diff" ] || { echo "$C m$K: no diff"; exit 2; }
 D=$(mktemp -d /tmp/seedchk_XXXXXX)
